@@ -206,9 +206,43 @@ def xnlri_known_class(c, obs):
         if len(b) == 13 and b[0] == 96 and (b[5] not in (0, 1, 2) or b[6] != 2): return 'C17-rtc'
     return None
 
+FAM_OF_NLRI = {4: ((1 << 16) | 1, (1 << 16) | 2), 6: ((2 << 16) | 1, (2 << 16) | 2), 14: ((1 << 16) | 4,), 16: ((2 << 16) | 4,),
+               24: ((1 << 16) | 128,), 26: ((2 << 16) | 128,)}
+
+def xnlri_family_wrong(c):
+    """an accepted message of kind 8 whose NLRI cannot belong to the family it was given with"""
+    x, fam = c['x'], c['fam']
+    E = c17enum
+    if x[0] == 10: return fam not in (E.FS4, E.FS6)
+    if x[0] == 11: return fam not in (E.FSV4, E.FSV6)
+    if x[0] == 12: return fam != (E.SR4 if len(x[4]) == 4 else E.SR6)
+    if x[0] == 13: return fam != E.RTCF
+    return fam not in (E.MUP4, E.MUP6)
+
+def xnlri_unfaithful(c, listed):
+    """numeric fields of an accepted flowspec message against the API form listed for the stored value"""
+    x = c['x']
+    if x[0] not in (10, 11) or not isinstance(listed, list) or listed[0] != x[0]: return None
+    mr, lr = x[-1], listed[-1]
+    if len(mr) != len(lr): return 'flowspec: %d rules in the message, %d stored' % (len(mr), len(lr))
+    for a, b in zip(mr, lr):
+        if a[0] != b[0]: return 'flowspec rule kind changed'
+        if a[0] == 1 and (a[1], a[2], a[4] if c['fam'] in (c17enum.FS6, c17enum.FSV6) else 0) != (b[1], b[2], b[4]):
+            return 'flowspec prefix rule (type %d, len %d, offset %d) stored as (%d, %d, %d)' % (a[1], a[2], a[4], b[1], b[2], b[4])
+        if a[0] == 2:
+            if a[1] != b[1] or len(a[2]) != len(b[2]): return 'flowspec component type / operator count changed'
+            for (o1, v1), (o2, v2) in zip(a[2], b[2]):
+                if v1 != v2 or (o1 & 0x4f) != (o2 & 0x4f): return 'flowspec operator (%#x, %d) stored as (%#x, %d)' % (o1, v1, o2, v2)
+    return None
+
 def oracle_xnlri(c, obs):
     if obs[0] == 0:
         return None
+    if xnlri_family_wrong(c):
+        return 'an NLRI message was accepted for a family it cannot belong to (afi %d safi %d)' % (c['fam'] >> 16, c['fam'] & 0xffff)
+    why = xnlri_unfaithful(c, obs[5])
+    if why:
+        return 'not stored faithfully: ' + why
     text = bytes(obs[1]).decode('latin1')[:80]
     if obs[2] == [-1]: return 'an accepted NLRI panics its encoder: ' + text
     if obs[3] == [-1]: return 'an accepted NLRI panics the decoder when read back: ' + text
@@ -762,7 +796,13 @@ class Prop:
             '(1) one API attribute message through attr_from_api, then as_path_length / encode / attr_to_api / Table::insert next to a competitor path; '
             '(2) one API NLRI message through net_from_api, then Nlri::encode; (3) one internal IPv4/IPv6/labeled NLRI through nlri_to_api / net_from_api; '
             '(5) a whole api::Path through GrpcService::local_path, then Table::insert; (6) one API EVPN message through net_from_api, checked to decode back from its own wire encoding; '
-            '(7) one internal EVPN route through nlri_to_api / net_from_api; these seven kinds are modelled and compared with the model value for value. '
+            '(7) one internal EVPN route through nlri_to_api / net_from_api; (8) one API NLRI message of the flowspec (plain / VPN), SR Policy, RTC and MUP families through net_from_api and the family check of local_path, '
+            'then Nlri::encode, the repository decoder on those bytes (must give the accepted value back), nlri_to_api and net_from_api again; flowspec / SR Policy / RTC are modelled (accepted?, wire bytes, listed form compared), MUP is judged by the oracle only; '
+            'these kinds are modelled and compared with the model value for value. '
+            'gen/c17enum.py ENUMERATES 120 classes (about 4200 cases) on every run, one per clause / branch / comparison of the anchored functions with values on both sides of each boundary '
+            '(every flags octet; value lengths around each type rule; segment counts 0/1/63/64/65/127/128/129/254/255/256/257 with AS numbers whose octets look like segment headers; 255/256 and 65535/65536-octet values; '
+            'every extended-community type octet x sub-type x reserved-bit pattern; every bounded API field at bound and bound+1; every IPv4/IPv6/MAC spelling; label stacks and prefix lengths around the one-octet NLRI length; '
+            'flowspec rule bodies of 239/240/241 and 4095/4096/4097 octets; MP_REACH header lengths; address-family edges); they are tagged enum:<class> in input_distribution. '
             '(4) the wide part: a whole UPDATE of any of 19 address families with any attribute kinds (tunnel-encap, prefix-SID, BGP-LS, AIGP, AS4_*, unknown), '
             'every decoded attribute and NLRI round-tripped through the API form; NOT modelled, judged by the Spec oracle only (canon maps its observation to []), '
             'so it adds to "evaluations" and "traces_validated_against_impl" without being a model comparison: see input_distribution tags wide:*. '
@@ -780,10 +820,11 @@ class Prop:
         '(uint32 fields below 2^32: api_in_range) are modelled by hand from their documentation; bit tests on u8 values are written arithmetically in the model',
         'what is modelled of attr_to_api / attr_from_api is the core: ORIGIN, AS_PATH, NEXT_HOP, MED, LOCAL_PREF, ATOMIC_AGGREGATE, AGGREGATOR, COMMUNITIES, ORIGINATOR_ID, '
         'CLUSTER_LIST, EXTENDED_COMMUNITIES (all twelve variants of read_extcom/write_extcom), LARGE_COMMUNITIES, Unknown (incl. MP_REACH/MP_UNREACH/AS4_PATH/AS4_AGGREGATOR/AIGP '
-        'and opaque); NLRI: Prefix, LabeledPrefix, LabeledVPNIPPrefix arms and the five EVPN route types (RD, ESI, MAC and IP address text). '
+        'opaque and the typed MpReach message); NLRI: Prefix, LabeledPrefix, LabeledVPNIPPrefix arms, the five EVPN route types (RD, ESI, MAC and IP address text), flowspec (plain and VPN, both IP versions: '
+        'prefix and operator components, operator framing bits, 12-bit length), SR Policy and Route Target Constraint, each with its wire encoding. '
         'For TUNNEL_ENCAP, PREFIX_SID and the BGP-LS attribute only the lossless-or-raw wrapper of attr_to_api is modelled (theorems noncore_*): the typed TLV converters are uninterpreted '
         'functions there, so the round trip is proved for whatever they compute but a panic inside them, and what the typed form looks like, is covered by the wide differential part only; '
-        'the MpReach message and the flowspec / MUP / SR-policy / RTC / BGP-LS NLRI families are covered by the wide differential part only (sampling, no proof): the property is claimed partial for them',
+        'the MUP and BGP-LS NLRI families are not modelled: MUP is covered from the API side by kind 8 (oracle: decodes back from its own encoding, relists unchanged, family consistent) and both from the wire side by the wide differential part (sampling, no proof): the property is claimed partial for them',
         'the wire decoder is modelled only as far as C17 needs it (Attribute::decode in four-octet-AS form and the per-attribute admission of the UPDATE arm); '
         'two-octet-AS sessions, treat-as-withdraw and NLRI decoding are exercised by the wide part only',
         'the comparator is modelled for one comparison between paths of two sources of equal role that are not stale (what Table::insert does against a destination holding one path); '
@@ -1014,6 +1055,8 @@ class Prop:
             why = wf_nlri(obs[2])
             if why:
                 return 'local_path accepted an NLRI outside the wire invariants: ' + why
+            if obs[2][0] in FAM_OF_NLRI and obs[1] not in FAM_OF_NLRI[obs[2][0]]:
+                return 'local_path accepted an NLRI that does not belong to the path family (afi %d safi %d)' % (obs[1] >> 16, obs[1] & 0xffff)
             for a in obs[4]:
                 why = wf_attr(a)
                 if why:
